@@ -80,28 +80,34 @@ def nextLine (d : Disp) : Bool × Disp :=
     | some a, some b => if tokNewLine a b then (true, d.setCursor (d.cursor + 1)) else (false, d)
     | _, _ => (false, d)
 
+/-- `d.Val() == v && !d.nextOnSameLine()` — short circuit: the cursor is only moved when the value matches -/
+def valIsAndNotSameLine (d : Disp) (v : Bytes) : Bool × Disp :=
+  if d.val == v then (!d.nextOnSameLine.1, d.nextOnSameLine.2) else (false, d)
+
+/-- `if d.Val() == "}" && !d.nextOnSameLine() { d.nesting-- } else if d.Val() == "{" && !d.nextOnSameLine() { d.nesting++ }`:
+when the first `nextOnSameLine` succeeds the cursor HAS moved before the second test runs. -/
+def adjustNesting (d : Disp) : Disp :=
+  let r1 := d.valIsAndNotSameLine rbrace
+  if r1.1 then { r1.2 with nesting := r1.2.nesting - 1 }
+  else
+    let r2 := r1.2.valIsAndNotSameLine lbrace
+    if r2.1 then { r2.2 with nesting := r2.2.nesting + 1 } else r2.2
+
 /-- `NextBlockNesting(initialNestingLevel)` -/
 def nextBlockNesting (d : Disp) (initial : Int) : Bool × Disp :=
   if d.nesting > initial then
-    let (ok, d1) := d.next
-    if !ok then (false, d1)
+    let r := d.next
+    if !r.1 then (false, r.2)
     else
-      -- `if d.Val() == "}" && !d.nextOnSameLine() {…} else if d.Val() == "{" && !d.nextOnSameLine() {…}`:
-      -- when the first `nextOnSameLine` succeeds the cursor HAS moved before the second test runs.
-      let (c1, da) := if d1.val == rbrace then (let r := d1.nextOnSameLine; (!r.1, r.2)) else (false, d1)
-      let d2 :=
-        if c1 then { da with nesting := da.nesting - 1 }
-        else
-          let (c2, db) := if da.val == lbrace then (let r := da.nextOnSameLine; (!r.1, r.2)) else (false, da)
-          if c2 then { db with nesting := db.nesting + 1 } else db
+      let d2 := r.2.adjustNesting
       (decide (d2.nesting > initial), d2)
   else
-    let (same, d1) := d.nextOnSameLine
-    if !same then (false, d1)
-    else if d1.val != lbrace then (false, d1.setCursor (d1.cursor - 1))
+    let r := d.nextOnSameLine
+    if !r.1 then (false, r.2)                                         -- block must open on same line
+    else if r.2.val != lbrace then (false, r.2.setCursor (r.2.cursor - 1))  -- roll back if not opening brace
     else
-      let d2 := d1.next.2
-      if d2.val == rbrace then (false, d2)
+      let d2 := r.2.next.2                                            -- consume open curly brace
+      if d2.val == rbrace then (false, d2)                            -- open and then closed right away
       else (true, { d2 with nesting := d2.nesting + 1 })
 
 /-- `NextBlock` -/
@@ -111,19 +117,19 @@ def nextBlock (d : Disp) : Bool × Disp := d.nextBlockNesting 0
 def remainingArgsGo : Nat → Disp → List Bytes → List Bytes × Disp
   | 0, d, acc => (acc, d)
   | fuel + 1, d, acc =>
-    let (ok, d1) := d.nextArg
-    if !ok then (acc, d1)
-    else if d1.val == lbrace then (acc, d1.setCursor (d1.cursor - 1))
-    else remainingArgsGo fuel d1 (acc ++ [d1.val])
+    let r := d.nextArg
+    if !r.1 then (acc, r.2)
+    else if r.2.val == lbrace then (acc, r.2.setCursor (r.2.cursor - 1))
+    else remainingArgsGo fuel r.2 (acc ++ [r.2.val])
 
-def remainingArgs (d : Disp) : List Bytes × Disp := remainingArgsGo (d.tokens.length + 2) d []
+def remainingArgs (d : Disp) : List Bytes × Disp := remainingArgsGo (d.tokens.length + 3) d []
 
 /-- `Args(targets...)` for `n` targets: the values loaded and whether there were enough. -/
 def args : Nat → Disp → List Bytes → Bool × List Bytes × Disp
   | 0, d, acc => (true, acc, d)
   | n + 1, d, acc =>
-    let (ok, d1) := d.nextArg
-    if !ok then (false, acc, d1) else args n d1 (acc ++ [d1.val])
+    let r := d.nextArg
+    if !r.1 then (false, acc, r.2) else args n r.2 (acc ++ [r.2.val])
 
 /-- `isNewLine` -/
 def isNewLine (d : Disp) : Bool :=
@@ -138,6 +144,32 @@ def isNextOnNewLine (d : Disp) : Bool :=
   else match d.tok? d.cursor, d.tok? (d.cursor + 1) with
     | some a, some b => tokNewLine a b
     | _, _ => true
+
+/-- the cursor-moving methods a directive's setup function can call -/
+inductive Op where
+  | next | nextArg | nextLine | nextBlock
+  | nextBlockNesting (initial : Int)
+  | remainingArgs
+  | args (n : Nat)
+deriving DecidableEq, Repr
+
+/-- the dispenser after one method call -/
+def apply (d : Disp) : Op → Disp
+  | .next => d.next.2
+  | .nextArg => d.nextArg.2
+  | .nextLine => d.nextLine.2
+  | .nextBlock => d.nextBlock.2
+  | .nextBlockNesting i => (d.nextBlockNesting i).2
+  | .remainingArgs => d.remainingArgs.2
+  | .args n => (Disp.args n d []).2.2
+
+/-- a `for c.NextBlock() { body }` loop (the shape of every sub-block parser in the setup files);
+`none` = still looping when the fuel ran out -/
+def blockLoop (body : Disp → Disp) : Nat → Disp → Option Disp
+  | 0, _ => none
+  | fuel + 1, d =>
+    let r := d.nextBlock
+    if r.1 then blockLoop body fuel (body r.2) else some r.2
 
 end Disp
 
